@@ -1,9 +1,40 @@
 import Rare.Drv.Expr
+/-!
+C11 ops: the shared `expr` op, plus
+
+  lookupfile <lookup|haskey> <key hex> <content hex> <prefix hex | .>
+
+which evaluates `{lookup {0} {load FILE} [prefix]}` with FILE holding `content` (the table text
+reaches the builder as a constant without passing through the template syntax, so it can hold
+arbitrary bytes and be as large as `bufio.Scanner`'s limits).  Answer: `ok val=<hex>`.
+-/
 namespace Rare.Drv.C11
+open Rare Rare.Expr Rare.Proto
+
+def lookupFile (fn : String) (key content : Bytes) (pre : Option Bytes) : String :=
+  let b : Builder := if fn == "haskey" then Funcs.Misc.kfHasKey else Funcs.Misc.kfLookupKey
+  let args : List Stage := [Comp.match_ 0, Stage.lit content] ++ (match pre with
+    | some p => [Stage.lit p]
+    | none => [])
+  match b args with
+  | .error m => Rare.Drv.Expr.panicAns m
+  | .ok built =>
+    match built.stage with
+    | none => "ok val=-"
+    | some st =>
+      match st.run { getMatch := fun i => if i = 0 then key else [], getKey := fun _ => [] } with
+      | .error m => Rare.Drv.Expr.panicAns m
+      | .ok v => s!"ok val={Hex.enc v}"
 
 def handle (args : List String) : String :=
-  match Rare.Drv.Expr.handle args with
-  | some a => a
-  | none => "bad-op"
+  match args with
+  | ["lookupfile", fn, k, c, p] =>
+    (match Hex.dec k, Hex.dec c, (if p == "." then some none else (Hex.dec p).map some) with
+    | some key, some content, some pre => lookupFile fn key content pre
+    | _, _, _ => "bad-args")
+  | _ =>
+    match Rare.Drv.Expr.handle args with
+    | some a => a
+    | none => "bad-op"
 
 end Rare.Drv.C11
